@@ -174,6 +174,7 @@ class Model:
             if kk['default_cert'] == c:
                 kk['default_cert'] = None
                 kk['cert_default_deleted'] = True
+                kk['cert_default_explicit'] = False
             self.deleted_certs.add(c)
 
     def del_key(self, k):
@@ -186,6 +187,7 @@ class Model:
             if i['default_key'] == k:
                 i['default_key'] = None
                 i['key_default_deleted'] = True
+                i['key_default_explicit'] = False
             self.deleted_keys.add(k)
 
     def del_identity(self, n):
@@ -196,6 +198,7 @@ class Model:
         if self.default_id == n:
             self.default_id = None
             self.id_default_deleted = True
+            self.id_default_explicit = False
 
 
 def T(name):
@@ -248,12 +251,17 @@ def check_invariants(ctx, S, M, w, after):
                 else:
                     ctx.event('observation:default-key-reassigned-after-deletion')
             elif i['default_key'] is not None and T(I.default_key().name) != i['default_key']:
-                bad('default-key-differs', 'default_key() is not the key the history made default')
+                if i.get('key_default_explicit'):
+                    bad('default-key-differs', 'default_key() is not the key that set_default_key made default')
+                elif T(I.default_key().name) in i['keys']:
+                    i['default_key'] = T(I.default_key().name)        # which key becomes default automatically is the store's choice
+                else:
+                    bad('default-key-foreign', 'default_key() is not a key of this identity')
             ndef = kc.conn._c.execute('SELECT count(*) FROM keys WHERE is_default=1 AND identity_id=?', (I.row_id,)).fetchone()[0]
             if ndef > 1:
                 bad('two-default-keys', f'{ndef} default keys in one identity')
-            if (I.is_default) != (M.default_id == idn) and M.default_id is not None:
-                bad('default-identity-flag', 'Identity.is_default disagrees with the history')
+            if (I.is_default) != (M.default_id == idn) and M.default_id is not None and getattr(M, 'id_default_explicit', False):
+                bad('default-identity-flag', 'Identity.is_default disagrees with set_default_identity')
             for k, kk in i['keys'].items():
                 K = I[list(k)]
                 if T(K.name) != k or bytes(K.key_bits) != kk['bits'] or T(K.identity) != idn:
@@ -280,7 +288,12 @@ def check_invariants(ctx, S, M, w, after):
                     else:
                         ctx.event('observation:default-cert-reassigned-after-deletion')
                 elif kk['default_cert'] is not None and Name.to_bytes(K.default_cert().name) != rc.enc_name(list(kk['default_cert'])):
-                    bad('default-cert-differs', 'default_cert() is not the certificate the history made default')
+                    if kk.get('cert_default_explicit'):
+                        bad('default-cert-differs', 'default_cert() is not the certificate that set_default_cert made default')
+                    elif T(K.default_cert().name) in kk['certs']:
+                        kk['default_cert'] = T(K.default_cert().name)
+                    else:
+                        bad('default-cert-foreign', 'default_cert() is not a certificate of this key')
                 ndef = kc.conn._c.execute('SELECT count(*) FROM certificates WHERE is_default=1 AND key_id=?', (K.row_id,)).fetchone()[0]
                 if ndef > 1:
                     bad('two-default-certs', f'{ndef} default certificates in one key')
@@ -294,7 +307,12 @@ def check_invariants(ctx, S, M, w, after):
             else:
                 ctx.event('observation:default-identity-reassigned-after-deletion')
         elif M.default_id is not None and T(kc.default_identity().name) != M.default_id:
-            bad('default-identity-differs', 'default_identity() is not the one the history made default')
+            if getattr(M, 'id_default_explicit', False):
+                bad('default-identity-differs', 'default_identity() is not the one that set_default_identity made default')
+            elif T(kc.default_identity().name) in M.ids:
+                M.default_id = T(kc.default_identity().name)
+            else:
+                bad('default-identity-foreign', 'default_identity() is not an identity of the store')
         ndef = kc.conn._c.execute('SELECT count(*) FROM identities WHERE is_default=1').fetchone()[0]
         if ndef > 1:
             bad('two-default-identities', f'{ndef} default identities')
@@ -534,15 +552,18 @@ def apply_op(S, M, op, rng, ctx):
         kc.set_default_identity(list(op[1]))
         M.default_id = op[1]
         M.id_default_deleted = False
+        M.id_default_explicit = True
     elif kind == 'set_default_key':
         _, idn, k = op
         kc[list(idn)].set_default_key(list(k))
         M.ids[idn]['default_key'] = k
         M.ids[idn]['key_default_deleted'] = False
+        M.ids[idn]['key_default_explicit'] = True
     elif kind == 'set_default_cert':
         _, idn, k, c = op
         kc[list(idn)][list(k)].set_default_cert(list(c))
         M.ids[idn]['keys'][k]['default_cert'] = c
+        M.ids[idn]['keys'][k]['cert_default_explicit'] = True
     elif kind == 'del_cert':
         _, idn, k, c = op
         kc.del_cert(list(c))
